@@ -9,6 +9,7 @@
 (* (run / begin + step* / pause-resume variants / different output growth  *)
 (* settings / the decompiled source): all must reach this same state.      *)
 (*                                                                         *)
+(* `exit` (leave the user-defined word) is specified since finding F85.     *)
 (* Instructions (records):                                                 *)
 (*   [k |-> "lit", x]            integer literal                           *)
 (*   [k |-> "w", w]              builtin word (dup drop swap over rot nip  *)
@@ -83,7 +84,9 @@ BitOp(op, a, b) ==
 
 \* ---------------------------------------------------------------- machine state
 \* st: data stack (top = last); doi: do-loop indices (innermost last); depth: segment nesting
-S0 == [st |-> <<>>, err |-> "none", x |-> 0, out |-> <<>>, pos |-> 0, doi |-> <<>>, depth |-> 1, fuel |-> Fuel]
+S0 == [st |-> <<>>, err |-> "none", x |-> 0, out |-> <<>>, pos |-> 0, doi |-> <<>>, depth |-> 1, fuel |-> Fuel, ret |-> 0]
+\* ret = 1: the word `exit` has been executed and the user-defined word is being left (nothing else runs until the call returns;
+\* the do-loops the word had started are abandoned, those of the caller stay)
 Fail(S, e) == [S EXCEPT !.err = e]
 Ok(S) == S.err = "none"
 N(S) == Len(S.st)
@@ -142,6 +145,7 @@ Prim(S, w) ==
        [] w = "i" -> IF Len(S.doi) >= 1 THEN Rewrite(S, 0, <<S.doi[Len(S.doi)]>>) ELSE Rewrite(S, 0, <<0>>)
        [] w = "j" -> IF Len(S.doi) >= 2 THEN Rewrite(S, 0, <<S.doi[Len(S.doi) - 1]>>) ELSE Rewrite(S, 0, <<0>>)
        [] w = "halt" -> Fail(S, "user_halt")
+       [] w = "exit" -> [S EXCEPT !.ret = 1]
 
 \* typed reads of the input bytes (two's complement), little- or big-endian
 U8(k) == Input[k + 1]
@@ -174,7 +178,7 @@ Enter(S) == IF S.depth >= RecMax THEN Fail(S, "recursion_depth_exceeded") ELSE [
 Leave(S) == IF Ok(S) THEN [S EXCEPT !.depth = @ - 1] ELSE S
 
 Exec(p, S, Def) ==
-  IF p = <<>> \/ ~Ok(S) THEN S
+  IF p = <<>> \/ ~Ok(S) \/ S.ret = 1 THEN S
   ELSE IF S.fuel = 0 THEN Fail(S, "FUEL")
   ELSE LET h == Head(p)
            S1 == [S EXCEPT !.fuel = @ - 1]
@@ -195,7 +199,7 @@ Exec(p, S, Def) ==
                   [] h.k = "put" -> IF N(S1) < 1 THEN Fail(S1, "stack_underflow") ELSE [Pop(S1, 1) EXCEPT !.x = Top(S1, 1)]
                   [] h.k = "inc" -> IF N(S1) < 1 THEN Fail(S1, "stack_underflow")
                                     ELSE IF Big(S1.x) THEN Fail(S1, "FUEL") ELSE [Pop(S1, 1) EXCEPT !.x = @ + Top(S1, 1)]
-                  [] h.k = "call" -> Leave(Exec(Def, Enter(S1), Def))
+                  [] h.k = "call" -> LET R0 == Leave(Exec(Def, Enter(S1), Def)) IN [R0 EXCEPT !.ret = 0]
                   [] h.k = "read" -> Read(S1, h.ty)
                   [] h.k = "in" -> InWord(S1, h.w)
                   [] h.k = "write" -> IF N(S1) < 1 THEN Fail(S1, "stack_underflow")
@@ -212,6 +216,7 @@ Loop(h, i, stop, S, Def) ==
   ELSE IF S.fuel = 0 THEN Fail(S, "FUEL")
   ELSE LET S1 == Leave(Exec(h.body, Enter([S EXCEPT !.fuel = @ - 1, !.doi[Len(S.doi)] = i]), Def)) IN
        IF ~Ok(S1) THEN S1
+       ELSE IF S1.ret = 1 THEN [S1 EXCEPT !.doi = SubSeq(@, 1, Len(@) - 1)]       \* the loop is abandoned
        ELSE IF h.st = 0 THEN Loop(h, i + 1, stop, S1, Def)
        ELSE IF N(S1) < 1 THEN Fail(S1, "stack_underflow")
        ELSE Loop(h, i + Top(S1, 1), stop, Pop(S1, 1), Def)
@@ -220,7 +225,7 @@ Until(h, S, Def) ==
   IF ~Ok(S) THEN S
   ELSE IF S.fuel = 0 THEN Fail(S, "FUEL")
   ELSE LET S1 == Leave(Exec(h.body, Enter([S EXCEPT !.fuel = @ - 1]), Def)) IN
-       IF ~Ok(S1) THEN S1
+       IF ~Ok(S1) \/ S1.ret = 1 THEN S1
        ELSE IF N(S1) < 1 THEN Fail(S1, "stack_underflow")
        ELSE IF Top(S1, 1) # 0 THEN Pop(S1, 1) ELSE Until(h, Pop(S1, 1), Def)
 
@@ -228,10 +233,10 @@ While(h, S, Def, n) ==
   IF ~Ok(S) THEN S
   ELSE IF S.fuel = 0 THEN Fail(S, "FUEL")
   ELSE LET S1 == Leave(Exec(h.c, Enter([S EXCEPT !.fuel = @ - 1]), Def)) IN
-       IF ~Ok(S1) THEN S1
+       IF ~Ok(S1) \/ S1.ret = 1 THEN S1
        ELSE IF N(S1) < 1 THEN Fail(S1, "stack_underflow")
        ELSE IF Top(S1, 1) = 0 THEN Pop(S1, 1)
-       ELSE LET S2 == Leave(Exec(h.body, Enter(Pop(S1, 1)), Def)) IN While(h, S2, Def, n + 1)
+       ELSE LET S2 == Leave(Exec(h.body, Enter(Pop(S1, 1)), Def)) IN IF S2.ret = 1 THEN S2 ELSE While(h, S2, Def, n + 1)
 
 Run(main, def) == Exec(main, S0, def)
 
@@ -277,10 +282,19 @@ LoopWordsOk(p, nd) ==
       [] h.k = "while" -> LoopWordsOk(h.c, nd) /\ LoopWordsOk(h.body, nd)
       [] OTHER -> TRUE
 Compiles == LoopWordsOk(main, 0) /\ LoopWordsOk(def, 0)
+RECURSIVE HasExit(_)
+HasExit(p) == \E q \in 1..Len(p) :
+                LET h == p[q] IN
+                CASE h.k = "w" -> h.w = "exit"
+                  [] h.k = "if" -> HasExit(h.a) \/ HasExit(h.b)
+                  [] h.k \in {"do", "until"} -> HasExit(h.body)
+                  [] h.k = "while" -> HasExit(h.c) \/ HasExit(h.body)
+                  [] OTHER -> FALSE
 
 Execute == /\ phase = "build"
            /\ LET R == IF Compiles THEN Run(main, def) ELSE Fail(S0, "compile_error") IN
                 /\ R.err # "FUEL"
+                /\ ~HasExit(main)                 \* `exit` outside a word definition: not specified here
                 /\ last' = [act |-> "forth", main |-> main, def |-> def, stackmax |-> StackMax, recmax |-> RecMax,
                             input |-> Input,
                             exp |-> [err |-> R.err, st |-> R.st, x |-> R.x, out |-> R.out, pos |-> R.pos]]
